@@ -1984,7 +1984,10 @@ matrix_rem_generic(PyObject *self, PyObject *other, int inplace)
     if (!ptr) return PyErr_NoMemory();
 
     int lgt = MAT_LGT(self);
-    if (mtx_rem[id](ptr,n,lgt)) { free(ptr); return NULL; }
+    if (mtx_rem[id](ptr,n,lgt)) {
+      if (ptr != MAT_BUF(self)) free(ptr);
+      return NULL;
+    }
 
     free_convert_mtx_alloc(self, ptr, id);
     Py_INCREF(self);
